@@ -180,4 +180,54 @@ func factsBlock() {
 		})
 	}
 	emitStr("dedupContainsLoops", "pkg/block/fetcher.go contains(): which slice is quantified universally (outer) / existentially (inner)", cloop)
+
+	// ---- C32: retention / cleaner / partial uploads
+	rtf := parse("pkg/compact/retention.go")
+	rb := body(fn(rtf, "", "ApplyRetentionPolicyByResolution"))
+	maxExpr := "unknown"
+	if rb != nil {
+		ast.Inspect(rb, func(n ast.Node) bool {
+			if a, ok := n.(*ast.AssignStmt); ok && len(a.Lhs) == 1 && len(a.Rhs) == 1 && text(a.Lhs[0]) == "maxTime" {
+				maxExpr = text(a.Rhs[0])
+			}
+			return true
+		})
+	}
+	emitStr("retentionMaxTimeExpr", "pkg/compact/retention.go: how the block's MaxTime (ms) becomes the compared instant", maxExpr)
+	emitStr("retentionCond", "pkg/compact/retention.go: the marking condition", firstIfCond(rb, "After"))
+	emitStr("retentionDisabledCond", "pkg/compact/retention.go: when a resolution's retention is disabled", firstIfCond(rb, "retentionDuration"))
+	clf := parse("pkg/compact/blocks_cleaner.go")
+	emitStr("cleanerCond", "pkg/compact/blocks_cleaner.go DeleteMarkedBlocks: when a marked block is deleted",
+		firstIfCond(body(fn(clf, "BlocksCleaner", "DeleteMarkedBlocks")), "deleteDelay"))
+	cnf := parse("pkg/compact/clean.go")
+	pb := body(fn(cnf, "", "BestEffortCleanAbortedPartialUploads"))
+	emitStr("partialSkipCond", "pkg/compact/clean.go: when a partial upload is left alone because it is too young", firstIfCond(pb, "PartialUploadThresholdAge"))
+	markedCond := "unknown"
+	if pb != nil {
+		ast.Inspect(pb, func(n ast.Node) bool {
+			if is, ok := n.(*ast.IfStmt); ok && is.Init != nil && strings.Contains(text(is.Init), "deletionMarkBlocks[") && markedCond == "unknown" {
+				what := "other"
+				if len(is.Body.List) > 0 {
+					if _, ok := is.Body.List[len(is.Body.List)-1].(*ast.BranchStmt); ok {
+						what = text(is.Body.List[len(is.Body.List)-1])
+					}
+				}
+				markedCond = text(is.Init) + "; " + text(is.Cond) + " => " + what
+			}
+			return true
+		})
+	}
+	emitStr("partialMarkedCond", "pkg/compact/clean.go: blocks passed as marked for deletion are skipped", markedCond)
+	thr := "unknown"
+	if cnf != nil {
+		ast.Inspect(cnf, func(n ast.Node) bool {
+			if vs, ok := n.(*ast.ValueSpec); ok && len(vs.Names) == 1 && vs.Names[0].Name == "PartialUploadThresholdAge" && len(vs.Values) == 1 {
+				thr = text(vs.Values[0])
+			}
+			return true
+		})
+	}
+	emitStr("partialThresholdAge", "pkg/compact/clean.go: const PartialUploadThresholdAge", thr)
+	gm := body(fn(cnf, "", "getOldestModifiedTime"))
+	emitStr("partialLastModifiedCond", "pkg/compact/clean.go getOldestModifiedTime: which modification time wins", firstIfCond(gm, "lastModifiedTime)"))
 }
